@@ -197,6 +197,21 @@ def c08_extra(pid, tier, seed):
                     viol.append(('P', '# C08 violated: %s\n# workload (conc language; crun <seed> <threads> <ops> <rollover> | cpause <rollover> '
                                       '<setup> <pause point> <held call> <calls placed inside>):\n%s\n# recorded history / failure:\n%s\n' % (
                                           r.split()[2] if len(r.split()) > 2 else r, op, r[:6000].replace(' || ', '\n#   '))))
+        # the reader's lazy load / unload protocol (coq/ReaderGC.v): the operations on messagesMu / messagesInuse / r.messages of
+        # every method of *reader, read off /repo/log_reader.go by harness/cmd/protoscan, against what the model was transcribed from
+        nproto = 0
+        ps = os.path.join(kv.HARNESS, 'bin', 'protoscan')
+        kv.sh(['go', 'build', '-o', ps, './cmd/protoscan'], cwd=kv.HARNESS, env=kv.GOENV, timeout=600)
+        r = subprocess.run([ps, os.path.join(kv.REPO, 'log_reader.go')], stdout=subprocess.PIPE, stderr=subprocess.PIPE, text=True, timeout=120)
+        want = [l.rstrip('\n') for l in open(os.path.join(kv.VERIF, 'lib', 'readergc_protocol.txt')) if l.strip() and not l.startswith('#')]
+        got = [l for l in r.stdout.split('\n') if l.strip()]
+        nproto = len(got)
+        if r.returncode != 0 or got != want:
+            diff = [g for g in got if g not in want] + ['(missing) ' + w for w in want if w not in got]
+            viol.append(('corr', '# correspondence corr:C08/reader-protocol no longer checks: the operations on messagesMu / messagesInuse / '
+                                 'r.messages in /repo/log_reader.go are not those coq/ReaderGC.v was transcribed from (theorems '
+                                 'C08_reads_never_see_a_closed_mapping / C08_reading_means_loaded); the concurrent runs of this check (readers '
+                                 'against GC included) found no failing history\n# differing methods:\n# %s\n' % '\n# '.join(diff[:8] or [r.stderr[-400:]])))
         races = [f for f in os.listdir(d) if f.startswith('race')]
         for f in races[:2]:
             txt = open(os.path.join(d, f)).read()
@@ -206,6 +221,7 @@ def c08_extra(pid, tier, seed):
                              placements_compared_with_protocol_model=ncmp, of_which_model_outcome_unique=nsingle,
                              free_running_histories=nfree, start_of_life_stress_iterations=4 * stress_iters, histories_linearizable=nlin, placements_with_point_hit=nhit,
                              linearizability_search_timeouts=nto, race_reports=len(races),
+                             reader_protocol_methods_compared_with_ReaderGC=nproto,
                              rule='placements: every call of a small alphabet - Publish, Consume, Get, Delete, NextOffset, Sync, GC, Stat, GetByTime, GetByKey, ConsumeByKey - (and sampled pairs) inside the windows publish.written, '
                                   'publish.rolled, delete.found/synced/rewritten, consume.indexed, gc.unload of a held call, on 1-4 segment '
                                   'logs; free-running: 2-8 goroutines x 15-60 random calls, rollover 60-400; all under -race; every recorded '
